@@ -67,22 +67,30 @@ func checkC06(c *Ctx) {
 			c.Violation("GF", key, call.Pos(), "the removal decision does not look the tip's own name up in a set: cannot be 'listed XOR revert'").Clause = "removing a set of tips (or keeping only a given set)"
 			continue
 		}
-		// the set is filled from the names parameter, keyed by the name
+		// the set is filled from the names parameter, keyed by the name: a store M[k] = ... inside a
+		// loop where k is an element of names (range value, or names[i])
 		filled := false
 		ast.Inspect(fi.Decl.Body, func(n ast.Node) bool {
-			rs, ok := n.(*ast.RangeStmt)
-			if !ok || identObj(info, rs.X) != names || rs.Value == nil {
+			as, ok := n.(*ast.AssignStmt)
+			if !ok || len(as.Lhs) != 1 {
 				return true
 			}
-			v := identObj(info, rs.Value)
-			ast.Inspect(rs.Body, func(m ast.Node) bool {
-				if as, ok := m.(*ast.AssignStmt); ok && len(as.Lhs) == 1 {
-					if ix, ok := unparen(as.Lhs[0]).(*ast.IndexExpr); ok && identObj(info, ix.X) == mapObj && identObj(info, ix.Index) == v {
+			ix, ok := unparen(as.Lhs[0]).(*ast.IndexExpr)
+			if !ok || identObj(info, ix.X) != mapObj {
+				return true
+			}
+			// key is names[...]
+			if kx, ok := unparen(ix.Index).(*ast.IndexExpr); ok && identObj(info, kx.X) == names {
+				filled = true
+			}
+			// key is the value of a range over names
+			if ko := identObj(info, ix.Index); ko != nil {
+				for _, s := range stackTo(fi.Decl.Body, as) {
+					if rs, ok := s.(*ast.RangeStmt); ok && identObj(info, rs.X) == names && rs.Value != nil && identObj(info, rs.Value) == ko {
 						filled = true
 					}
 				}
-				return true
-			})
+			}
 			return true
 		})
 		if !filled {
